@@ -1,5 +1,6 @@
 import EgVerif.Proofs.SpecGuards
 import EgVerif.Gen.FactsC13
+import EgVerif.Proofs.SpecGuardsIR
 /-!
 # C13 — configs accepted by validation instantiate and serve requests without panicking
 
@@ -527,6 +528,142 @@ example : mqttProxyValid (.obj [("port", .num 1883 0), ("rules", .arr [
     .obj [("when", .obj [("packetType", .str "Connect")]), ("pipeline", .str "auth")],
     .obj [("when", .obj [("packetType", .str "Publish")]), ("pipeline", .str "kafka")],
     .obj [("when", .obj [("packetType", .str "Subscribe")]), ("pipeline", .str "acl")]])]) = true := by decide
+
+/-! ## Validation ⇒ no panic with BOTH sides regenerated from the source (audit repair 7)
+
+The theorems above are statements about the hand-written predicates `…Valid` / `…InitOK` (where `…Valid`
+contains the guard as a conjunct they are consistency projections — `notes/AUDIT.md`). The theorems below are
+about definitions **translated on every run** from the Go bodies (`Gen/FactsC13IR.lean`,
+`harness/factextract/facts_c13_ir.go`): `validateIR_<Kind>` = the kind's `Validate()`, `panicsIR_<Kind>` = the
+function containing the panic site. A change of either side changes a generated definition and breaks the
+theorem of that kind. Proofs: `Proofs/SpecGuardsIR.lean` (same names, namespace `EgVerif.SpecGuards`). Each
+repair has an `unrepaired_<Kind>` witness: the statement is false for the validation before the `fix:` commit. -/
+
+open EgVerif.Gen.FactsC13IR in
+/-- ResponseAdaptor: `Spec.Validate` accepts ⇒ `Init` does not panic; in fact `Validate` accepts **iff** `Init`
+does not panic. -/
+theorem validate_no_panic_ResponseAdaptor (s : RASpec) :
+    Gen.FactsC13IR.extractionFailed = false ∧
+    (validateIR_ResponseAdaptor s = true → panicsIR_ResponseAdaptor s = false) ∧
+    validateIR_ResponseAdaptor s = !panicsIR_ResponseAdaptor s :=
+  ⟨by decide, SpecGuards.validate_no_panic_ResponseAdaptor s, SpecGuards.validate_iff_no_panic_ResponseAdaptor s⟩
+
+open EgVerif.Gen.FactsC13IR in
+/-- RequestBuilder / ResponseBuilder: `Spec.Validate` accepts ⇒ `Builder.reload` (`template.Must`) does not
+panic — for every spec and every answer of the template parser. -/
+theorem validate_no_panic_Builder (s : BSpec) :
+    Gen.FactsC13IR.extractionFailed = false ∧ (validateIR_Builder s = true → panicsIR_Builder s = false) :=
+  ⟨by decide, SpecGuards.validate_no_panic_Builder s⟩
+
+open EgVerif.Gen.FactsC13IR in
+/-- Fallback **handles any request**: the response lookup at the head of `Handle` does not panic for any
+request context (with or without a response in the context). -/
+theorem no_panic_Fallback (q : ReqCtx) :
+    Gen.FactsC13IR.extractionFailed = false ∧ panicsIR_Fallback q = false :=
+  ⟨by decide, SpecGuards.no_panic_Fallback q⟩
+
+open EgVerif.Gen.FactsC13IR in
+/-- RateLimiter: tag `format=duration` + `Policy.Validate` ⇒ the refresh period `createRateLimiter` hands to
+the limiter is positive, and every division of `acquirePermission` is by that period or by `LimitForPeriod`. -/
+theorem validate_no_panic_RLPolicy (p : RLPolicy) :
+    Gen.FactsC13IR.extractionFailed = false ∧
+    (tagOK_RLPolicy p = true → validateIR_RLPolicy p = true → 0 < refreshPeriodIR_RLPolicy p) ∧
+    rlDivisors = ["rl.policy.LimitRefreshPeriod", "rl.policy.LimitRefreshPeriod", "rl.policy.LimitForPeriod"] :=
+  ⟨by decide, SpecGuards.validate_no_panic_RLPolicy p, SpecGuards.rl_divisors_as_modelled⟩
+
+open EgVerif.Gen.FactsC13IR in
+/-- Validator: `Spec.Validate` accepts ⇒ the signer `CreateFromSpec` builds has a key store, so `Signer.Verify`
+does not panic (for every request: the panic does not depend on it); wiring of reload / Handle as a fact. -/
+theorem validate_no_panic_Validator (s : VSpec) :
+    Gen.FactsC13IR.extractionFailed = false ∧ validatorWiring = true ∧
+    (validateIR_Validator s = true → panicsIR_Validator s = false) :=
+  ⟨by decide, by decide, SpecGuards.validate_no_panic_Validator s⟩
+
+open EgVerif.Gen.FactsC13IR in
+/-- MQTTProxy: `Spec.Validate` accepts ⇒ `getPipelineMap` neither dereferences nil nor returns an error, so
+`newBroker` does not panic on it. -/
+theorem validate_no_panic_MQTTProxy (s : MqttSpec) :
+    Gen.FactsC13IR.extractionFailed = false ∧ newBrokerPanicsOnMapError = true ∧
+    (validateIR_MQTTProxy s = true → panicsIR_MQTTProxy s = false) :=
+  ⟨by decide, by decide, SpecGuards.validate_no_panic_MQTTProxy s⟩
+
+open EgVerif.Gen.FactsC13IR in
+/-- **Every one of these statements is false for the validation before its `fix:` commit** (34c5ca9, 3dbd6e1,
+49d7036, e912cc4, 4536822, 4f68600): a spec / request the old validation accepted on which the translated
+panic side panics. -/
+theorem unrepaired_validations_violate :
+    (∃ s : RASpec, panicsIR_ResponseAdaptor s = true) ∧
+    (∃ s : BSpec, validateUnrepaired_Builder s = true ∧ panicsIR_Builder s = true) ∧
+    (∃ q : ReqCtx, panicsUnrepaired_Fallback q = true) ∧
+    (∃ p : RLPolicy, tagOK_RLPolicy p = true ∧ refreshPeriodIR_RLPolicy p = 0) ∧
+    (∃ s : VSpec, validateUnrepaired_Validator s = true ∧ panicsIR_Validator s = true) ∧
+    (∃ s : MqttSpec, panicsIR_MQTTProxy s = true) :=
+  ⟨unrepaired_ResponseAdaptor, unrepaired_Builder, unrepaired_Fallback, unrepaired_RLPolicy, unrepaired_Validator,
+   ⟨_, unrepaired_MQTTProxy.1⟩⟩
+
+/-- The hand-written predicates over document trees (what the judge evaluates on every harness case) imply the
+generated validations / exclude the generated panics on the corresponding records. -/
+theorem handwritten_valid_implies_validateIR (o : Oracle) (j : J) :
+    (respAdaptorValid j = true → Gen.FactsC13IR.validateIR_ResponseAdaptor (RASpec.ofJ j) = true) ∧
+    (builderValid o j = true → Gen.FactsC13IR.validateIR_Builder (BSpec.ofJ o j) = true) ∧
+    (rlPolicyOK o j = true → tagOK_RLPolicy (RLPolicy.ofJ o j) = true ∧
+      Gen.FactsC13IR.validateIR_RLPolicy (RLPolicy.ofJ o j) = true) ∧
+    (mqttProxyValid j = true → panicsIR_MQTTProxy (MqttSpec.ofJ j) = false) :=
+  ⟨respAdaptorValid_implies_validateIR j, builderValid_implies_validateIR o j, rlPolicyOK_implies_validateIR o j,
+   mqttProxyValid_implies_no_panicIR j⟩
+
+/-- non-vacuity: accepted records on which the translated validations compute `true` -/
+example : Gen.FactsC13IR.validateIR_ResponseAdaptor ⟨"gzip", "", "x"⟩ = true ∧
+    Gen.FactsC13IR.validateIR_Builder ⟨"", "{{ .x }}", true⟩ = true ∧
+    Gen.FactsC13IR.validateIR_RLPolicy ⟨"10ms", some 10000000⟩ = true ∧
+    Gen.FactsC13IR.validateIR_Validator ⟨false, some ⟨2⟩⟩ = true ∧
+    Gen.FactsC13IR.validateIR_MQTTProxy ⟨[some ⟨some ⟨"Publish"⟩, "p"⟩, some ⟨some ⟨"Connect"⟩, "q"⟩]⟩ = true := by
+  decide
+
+/-! ## The panic-site table, split by what is actually known about each site (audit repair 7) -/
+
+/-- sites whose condition is a modelled guard (`guard:` rows) -/
+def guardedSites : List (String × String × Nat) :=
+  (guardTable.filter (·.2.1 == .guard)).map (·.1)
+/-- sites argued unreachable / converted to errors in prose (`allow:` rows) — **not proved**, the prose is the claim -/
+def allowedSites : List (String × String × Nat) :=
+  (guardTable.filter (·.2.1 == .allow)).map (·.1)
+/-- sites nobody instantiates (`not-covered:` rows) — honest gap -/
+def notCoveredSites : List (String × String × Nat) :=
+  (guardTable.filter (·.2.1 == .notCovered)).map (·.1)
+
+/-- every regenerated panic site is in exactly one of the three lists; their sizes -/
+theorem guard_table_partition :
+    Gen.FactsC13.extractionFailed = false ∧
+    (∀ s ∈ Gen.FactsC13.panicSites, (guardedSites.contains s || allowedSites.contains s || notCoveredSites.contains s) = true) ∧
+    (∀ s ∈ guardedSites, (allowedSites.contains s || notCoveredSites.contains s) = false) ∧
+    (∀ s ∈ allowedSites, notCoveredSites.contains s = false) ∧
+    (guardedSites.length, allowedSites.length, notCoveredSites.length) = (11, 17, 23) := by decide
+
+/-- **the guarded list, site by site** (only for these a theorem relates validation to the site):
+Builder.reload ← `validate_no_panic_Builder` (both sides regenerated);
+ResponseAdaptor.Init ← `validate_no_panic_ResponseAdaptor` (both sides regenerated);
+Signer.Verify ← `validate_no_panic_Validator` (both sides regenerated + wiring fact);
+newBroker ← `validate_no_panic_MQTTProxy` (both sides regenerated);
+Header.initHeaderRoute ← `valid_implies_init_ok_HTTPServer`, StringMatcher.init / StringMatch.Init / URLRule.Init
+← `smValid_init` / `matcherOK_init` / `poolOK_init` (hand-written model; `MustCompile` of a string the
+`format=regexp` tag already compiled: tag regenerated, code side hand-modelled);
+GlobalFilter.reload ← `valid_implies_init_ok_GlobalFilter_partial` (hand-written, partial);
+ServerPool.InjectResiliencePolicy, RequestAdaptor.Init ← **open findings**: validation does NOT exclude the
+panic (`pipeline_inject_violates`, `requestAdaptor_violates`). -/
+theorem guarded_sites_listed :
+    guardedSites =
+      [("pkg/filters/builder/builder.go", "Builder.reload", 1),
+       ("pkg/filters/proxy/pool.go", "ServerPool.InjectResiliencePolicy", 4),
+       ("pkg/filters/proxy/requestmatch.go", "StringMatcher.init", 1),
+       ("pkg/filters/requestadaptor/requestadaptor.go", "RequestAdaptor.Init", 4),
+       ("pkg/filters/responseadaptor/responseadaptor.go", "ResponseAdaptor.Init", 4),
+       ("pkg/object/globalfilter/globalfilter.go", "GlobalFilter.reload", 2),
+       ("pkg/object/httpserver/spec.go", "Header.initHeaderRoute", 1),
+       ("pkg/object/mqttproxy/broker.go", "newBroker", 1),
+       ("pkg/util/signer/signer.go", "Signer.Verify", 1),
+       ("pkg/util/urlrule/urlrule.go", "StringMatch.Init", 1),
+       ("pkg/util/urlrule/urlrule.go", "URLRule.Init", 1)] := by decide
 
 /-- every function with a `panic(` / `MustCompile(` / `template.Must(` in the anchored packages is
 mapped (with its call count) to a modelled guard, an allow-list entry or an explicit not-covered entry. -/
